@@ -106,23 +106,26 @@ class Recorder:
 class Check(PropertyCheck):
     prop = "C43"
     design_ref = "§5 C43"
-    level_text = ("Lean theorems over ALL operation sequences (add/update/remove of flows whose keys, marks and filter "
-                  "verdicts change at every notification, clear, clear-unmarked, filter/order/direction changes, marked-only "
-                  "toggles, focus moves, settings writes) of the model of View/Focus/Settings: view_eq_sorted_filter, "
-                  "each_once, focus_in_view_or_empty, settings_subset_store, signals_match_changes, never_crashes — proved "
-                  "from an inductive invariant (store/view duplicate-free, view = visible stored flows, view sorted by "
-                  "cached keys, cached keys of shown flows fresh). Model tied to the real addon by differential runs: after "
-                  "every operation list(view), focus, store order, settings ids and the exact signal sequence are compared.")
-    level_note = ("trusted: sortedcontainers.SortedListWithKey behaves as a sorted list with bisect_right insertion (tied "
+    level_text = ("Lean theorems over ALL operation sequences (add/update with new attributes, `mutate` = a change of a flow "
+                  "that is not reported to the view, remove, clear, clear-unmarked, filter/order/direction changes, marked-only "
+                  "toggles, focus moves, settings writes) of the model of View/Focus/Settings: view_eq_sorted_filter (listed => "
+                  "stored; flows whose last change the view has seen are listed iff they match, and are sorted), "
+                  "view_eq_sorted_filter_current (no unreported change pending: list(view) = permutation of the matching stored "
+                  "flows, sorted, reversed on request), each_once, focus_in_view_or_empty, settings_subset_store, "
+                  "signals_match_changes, update_is_announced, never_crashes — proved from an inductive invariant (store/view "
+                  "duplicate-free, view within the store, view sorted by cached keys, cached keys and visibility of non-stale "
+                  "flows current). Model tied to the real addon by differential runs: after every operation list(view), focus, "
+                  "store order, settings ids and the exact signal sequence are compared.")
+    level_note = ("flows may change without the view being told (`mutate`); for such a flow, until its next add/update or a "
+                  "re-filter, only `listed => stored, once` is claimed and it is left out of the sortedness claim. trusted: sortedcontainers.SortedListWithKey behaves as a sorted list with bisect_right insertion (tied "
                   "differentially, not proved); flowfilter verdicts and the four key generators are evaluated by the real code "
-                  "at every notification and fed to the model as data (keys mapped order-preservingly to naturals); a flow is "
-                  "mutated only together with the add/update notification that reports it; list arguments are modelled as the "
+                  "at every change and fed to the model as data (keys mapped order-preservingly to naturals); list arguments are modelled as the "
                   "sequence of single-flow operations; commands that only wrap these (duplicate/create/load_file/resolve) are not "
                   "modelled; sort stability among equal keys is not part of the statement and not demanded by the oracle.")
     technique = "Lean 4 proof (invariant induction over operation sequences) + differential model-vs-addon correspondence"
-    rule = ("a pool of 2-5 flows of types http/tcp/udp/dns; sequences of <=25 operations; every add/update carries fresh "
+    rule = ("a pool of 2-5 flows of types http/tcp/udp/dns; sequences of <=25 operations; every add/update/mutate carries fresh "
             "abstract attributes (timestamp, method/op-code, url/address/name, size, mark, error, response) from small pools so "
-            "that keys tie and filter verdicts flip; thorough adds all sequences of <=3 operations over 2 flows from a 14-op "
+            "that keys tie and filter verdicts flip; thorough adds all sequences of <=3 operations over 2 flows from a 16-op "
             "alphabet. distinct = distinct observable trace; non-trivial = view non-empty at some point.")
     budget = {"quick": 1200, "thorough": 70000}
     time_budget = {"quick": 22, "thorough": 420}
@@ -144,11 +147,11 @@ class Check(PropertyCheck):
                 "mk": int(rng.chance(0.4)), "e": int(rng.chance(0.2)), "rsp": int(rng.chance(0.4))}
 
     def gen_op(self, rng, n):
-        k = rng.weighted([(18, "add"), (24, "update"), (8, "remove"), (2, "clear"), (3, "clear_unmarked"), (9, "filter"),
+        k = rng.weighted([(14, "mutate"), (18, "add"), (22, "update"), (8, "remove"), (2, "clear"), (3, "clear_unmarked"), (9, "filter"),
                           (9, "order"), (5, "reversed"), (7, "toggle_marked"), (2, "focus_follow"), (3, "go"), (2, "next"),
                           (2, "prev"), (2, "focus"), (3, "setval")])
         fl = lambda: rng.randrange(n)
-        if k in ("add", "update"):
+        if k in ("add", "update", "mutate"):
             return [k, [[fl(), self.gen_attr(rng)] for _ in range(rng.weighted([(6, 1), (2, 2), (1, 3)]))]]
         if k == "remove": return [k, [fl() for _ in range(rng.weighted([(6, 1), (2, 2)]))]]
         if k == "filter": return [k, rng.randrange(len(FILTERS))]
@@ -171,7 +174,7 @@ class Check(PropertyCheck):
     def exhaustive(self, tier):
         a0 = {"t": 1, "m": 0, "u": 0, "z": 1, "mk": 0, "e": 0, "rsp": 0}
         a1 = {"t": 0, "m": 1, "u": 1, "z": 2, "mk": 1, "e": 0, "rsp": 1}
-        alpha = [["add", [[0, a0]]], ["add", [[1, a1]]], ["update", [[0, a1]]], ["update", [[1, a0]]], ["update", [[0, a0]]],
+        alpha = [["mutate", [[0, a1]]], ["mutate", [[1, a0]]], ["add", [[0, a0]]], ["add", [[1, a1]]], ["update", [[0, a1]]], ["update", [[1, a0]]], ["update", [[0, a0]]],
                  ["remove", [0]], ["toggle_marked"], ["filter", 1], ["filter", 0], ["order", "size"], ["order", "time"],
                  ["reversed", 1], ["clear_unmarked"], ["filter", 2]]
         for n in (1, 2, 3):
@@ -191,7 +194,7 @@ class Check(PropertyCheck):
     def _valid(case):
         n = len(case["pool"])
         for op in case["ops"]:
-            if op[0] in ("add", "update") and any(x[0] >= n for x in op[1]): return False
+            if op[0] in ("add", "update", "mutate") and any(x[0] >= n for x in op[1]): return False
             if op[0] == "remove" and any(x >= n for x in op[1]): return False
             if op[0] in ("focus", "setval") and op[1] >= n: return False
         return n > 0
@@ -211,7 +214,11 @@ class Check(PropertyCheck):
                 k, err = op[0], ""
                 before = [byid(f) for f in v._view]
                 try:
-                    if k in ("add", "update"):
+                    if k == "mutate":
+                        # the flow changes (proxy core, another addon); the view is not told
+                        for i, a in op[1]: mutate(flows[i], case["pool"][i], a)
+                        lines.append([f"mut {i} {self._model_attr(v, flows[i])}" for i, _ in op[1]])
+                    elif k in ("add", "update"):
                         fs = []
                         for i, a in op[1]:
                             f = flows[i]
@@ -246,7 +253,7 @@ class Check(PropertyCheck):
                 cur = v.orders.get(v.get_order(), v.default_order)
                 steps.append({
                     "op": k, "err": err,
-                    "touched": [x[0] for x in op[1]] if k in ("add", "update") else ([op[1]] if k == "setval" else []),
+                    "touched": [x[0] for x in op[1]] if k in ("add", "update", "mutate") else ([op[1]] if k == "setval" else []),
                     "view": [byid(f) for f in v], "raw": [byid(f) for f in v._view], "before": before,
                     "focus": byid(v.focus.flow) if v.focus.flow is not None else None,
                     "store": [byid(f) for f in v._store.values()],
@@ -256,6 +263,7 @@ class Check(PropertyCheck):
                     "want": [byid(f) for f in v._store.values()
                              if v.filter(f) and (not v.show_marked or f.marked)],
                     "keys": [repr(cur.generate(f)) for f in v._view],
+                    "kv": [cur.generate(f) for f in v._view],
                     "sorted": all(cur.generate(a) <= cur.generate(b) for a, b in zip(list(v._view), list(v._view)[1:])),
                     "rev": v.order_reversed,
                 })
@@ -265,22 +273,37 @@ class Check(PropertyCheck):
     # ---------------------------------------------------------------- the property as a predicate
     def oracle(self, case, obs):
         fails = []
+        # flows that changed since the view last evaluated them (an unreported `mutate`); the view cannot know their
+        # current key / filter verdict, so for them only "listed => stored, once" is demanded.  A flow is current again
+        # after its own add/update (or settings write), and all flows are after a re-filter / clear.
+        dirty, prev_store = set(), []
         for n, st in enumerate(obs["steps"]):
             where = f"op {n} ({st['op']})"
             if st["err"].startswith("unexpected"):
                 fails.append(f"{where}: raised {st['err']}")
+            k = st["op"]
+            if k == "mutate": dirty |= set(st["touched"])
+            elif k == "add": dirty -= {x for x in st["touched"] if x not in prev_store}
+            elif k == "update": dirty -= set(st["touched"])
+            elif k == "setval" and not st["err"]: dirty -= set(st["touched"])
+            elif k in ("clear", "clear_unmarked", "filter", "toggle_marked"): dirty = set()
+            prev_store = st["store"]
             view, raw = st["view"], st["raw"]
             # "the view lists exactly the stored flows that match the current filter (and are marked, while
-            #  marked-only is on), each once"
-            if sorted(map(str, view)) != sorted(map(str, st["want"])):
-                fails.append(f"{where}: view {view} != matching stored flows {st['want']}")
+            #  marked-only is on), each once" — after a removal / clear the flow must be gone whatever its key did
+            if any(x not in st["store"] for x in view):
+                fails.append(f"{where}: view {view} lists flows that are not stored {st['store']}")
             elif len(set(view)) != len(view):
                 fails.append(f"{where}: a flow is listed twice {view}")
-            # "sorted by the selected order and reversed when requested"
-            elif not st["sorted"]:
-                fails.append(f"{where}: view not sorted by the selected order: keys {st['keys']}")
-            elif view != (raw[::-1] if st["rev"] else raw):
-                fails.append(f"{where}: direction wrong: {view} vs underlying {raw} reversed={st['rev']}")
+            elif any((x in view) != (x in st["want"]) for x in st["store"] if x not in dirty):
+                fails.append(f"{where}: view {view} != matching stored flows {st['want']} (unreported changes: {sorted(dirty)})")
+            # "sorted by the selected order and reversed when requested" (among flows whose keys the view can know)
+            else:
+                ks = [kv for x, kv in zip(raw, st["kv"]) if x not in dirty]
+                if any(a > b for a, b in zip(ks, ks[1:])):
+                    fails.append(f"{where}: view not sorted by the selected order: keys {st['keys']} (unreported changes: {sorted(dirty)})")
+                elif view != (raw[::-1] if st["rev"] else raw):
+                    fails.append(f"{where}: direction wrong: {view} vs underlying {raw} reversed={st['rev']}")
             # "The focus is always a flow in the view (none only when the view is empty)"
             if st["focus"] is None:
                 if view: fails.append(f"{where}: no focus although the view is {view}")
